@@ -635,3 +635,35 @@ func vfH_C10_zerocost() {
 		vfrt.Assert(false, "zerocost/frame-type-kept")
 	}
 }
+
+//vf:assume C10-chunks: splitIntoChunks, the step that cuts a re-encoded header block into the payloads of one HEADERS/PUSH_PROMISE frame and its CONTINUATION frames, on 0..6 symbolic bytes with first-frame and continuation limits 1..3: the payloads concatenate to the block, each respects its limit, and - because the block lives in the relay's HPACK output buffer, which the next header block overwrites while these frames may still be queued behind flow-controlled DATA - none of them shares memory with the block it was cut from
+
+//vf:harness property=C10 nopanic reach=chunks-one,chunks-continued
+func vfH_C10_chunks() {
+	n := vfrt.Choice("block-len", 7)
+	block := vfrt.Bytes("block", n)
+	orig := append([]byte{}, block...)
+	firstMax := 1 + vfrt.Choice("first-frame-limit", 3)
+	contMax := 1 + vfrt.Choice("continuation-limit", 3)
+	chunks := splitIntoChunks(firstMax, contMax, block)
+	vfrt.Assert(len(chunks) >= 1, "chunks/at-least-the-first-frame")
+	if len(chunks) == 1 {
+		vfrt.Reach("chunks-one")
+	} else {
+		vfrt.Reach("chunks-continued")
+	}
+	// the relay's buffer is reused for the next block while the frames are still queued
+	for i := range block {
+		block[i] ^= 0xff
+	}
+	var all []byte
+	for i, c := range chunks {
+		if i == 0 {
+			vfrt.Assert(len(c) <= firstMax, "chunks/first-frame-within-its-limit")
+		} else {
+			vfrt.Assert(len(c) <= contMax && len(c) > 0, "chunks/continuation-within-its-limit-and-not-empty")
+		}
+		all = append(all, c...)
+	}
+	vfrt.Assert(bytes.Equal(all, orig), "chunks/queued-payloads-are-the-block-and-do-not-change-when-the-encoder-buffer-is-reused")
+}
